@@ -724,6 +724,7 @@ func (s *sched) doReq(task int, op COp) {
 	h.Call = s.seq
 	s.mix(task, "call:req")
 	w := newRec(nil)
+	w.outerAppends = q.Shape%nShapes == 9
 	doneH, doneWH := false, false
 	w.onHeader = func() {
 		s.yield("seam:header", "seam")
